@@ -352,6 +352,33 @@ def has_prompt(k, name):
     return s is not None and bool(s.nodes) and any(n.prompt is not None for n in s.nodes)
 
 
+def numeric_set_sym_target(k, name):
+    """Class suffix only (never part of an oracle): 'name' is an int / hex / float option that is the target of a
+    `set` / `set default` whose operand is not a literal of its type (i.e. a symbol).  KNOWN_FINDINGS root cause
+    precedence:<type>:set-sym / *:numeric-target-of-set-with-symbol-operand: the numeric branches of Symbol.str_value
+    take the operand's name for a malformed literal, stop, and leave _has_active_indirect_set as the PREVIOUS
+    evaluation left it, so the value depends on the evaluation history (a fresh instance disagrees)."""
+    s = k.syms.get(name)
+    if s is None or s.orig_type not in (K.INT, K.HEX, K.FLOAT):
+        return False
+    for v, _c, _s in list(s.rev_values) + list(s.weak_rev_values):
+        ok = K.is_float(v.name) if s.orig_type == K.FLOAT else K._is_base_n(v.name, 16 if s.orig_type == K.HEX else 10)
+        if not ok:
+            return True
+    return False
+
+
+def injected_state(k, pristine):
+    """Class suffix only (never part of an oracle): options of 'k' that carry an *injected default* (a stale
+    default-marked entry kept by policy sdkconfig as the option's first default) and keys of the choices whose default
+    list differs from that of 'pristine' (a fresh instance of the same tree)."""
+    out = set(s.name for s in k.unique_defined_syms if getattr(s, "_default_value_injected", False))
+    for i, (c, p) in enumerate(zip(k.unique_choices, pristine.unique_choices)):
+        if [getattr(d[0], "name", None) for d in c.defaults] != [getattr(d[0], "name", None) for d in p.defaults]:
+            out.add(ckey(i, c.name))
+    return out
+
+
 def apply_op(k, op, w):
     kind = op[0]
     if kind == "set":
